@@ -95,6 +95,8 @@ type treeJob struct {
 	Proxy    bool    // round 6: the history is played by a client through a real martian.Proxy (proxy.go)
 	Mode     int     // Proxy: how the client uses connections (proxyModes)
 	IDs      []int   // round 8 (repeat): the id of an exchange belongs to its symbol, not to its position - a symbol played again is the same exchange again
+	RT       [2]int  // round 8b (rtreq, through the proxy): what the upstream round tripper puts into res.Request (rtKinds) for plain exchanges [0] and for exchanges addressed to the proxy's API [1]
+	Bare     bool    // round 8b (rtreq): the configurable modifier sits directly in the proxy's top group, without the httpspec stack (proxyWirings)
 }
 
 // failCuts: where the client of a failing query goes away, in bytes of the would-be report (n = its size).
@@ -156,7 +158,7 @@ func (j *treeJob) sigPrefix() string {
 
 // splitFamily splits a signature of an added family into the family prefix and the rest ("" for the original ones).
 func splitFamily(sig string) (fam, base string) {
-	for _, f := range []string{"variants:", "scope:", "guard:", "long:", "failq:", "errmod:", "proxy:", "repeat:"} {
+	for _, f := range []string{"variants:", "scope:", "guard:", "long:", "failq:", "errmod:", "proxy:", "repeat:", "rtreq:"} {
 		if strings.HasPrefix(sig, f) {
 			return f, strings.TrimPrefix(sig, f)
 		}
@@ -251,6 +253,33 @@ func extJobs(tier string) []treeJob {
 			}
 			j.Cost = pow(j.nsyms(), j.Len) * proxyCost
 			jobs = append(jobs, j)
+		}
+	}
+	// rtreq (round 8b): the proxy family with one more dimension - what the upstream round tripper puts into
+	// res.Request: the request it was given (what the proxy family does), nil, a clone (req.Clone), req.WithContext -
+	// chosen independently for plain exchanges and for exchanges addressed to the proxy's API (configure, queries,
+	// resets, the refused DELETE /configure). The symbols whose exchange has no upstream response (failed round trip,
+	// failed CONNECT) are left to the proxy family. quick: the three uniform round trippers and the six that differ
+	// from the proxy family's for one class of exchanges only; thorough: all 15 pairs. Two wirings: the configurable
+	// modifier inside the httpspec stack as in cmd/proxy (all three connection modes) and directly in the top group
+	// (quick: one keep-alive connection; thorough: all three modes) - the modifiers of the httpspec stack look at the
+	// exchange's context themselves, so what the verifiers do with a response can only be seen without them once the
+	// context is not found.
+	if os.Getenv("C13_SKIP_R8B") == "" {
+		for _, t := range scen.ProxyTrees("quick") {
+			alpha := scen.AlphabetRTReq(t)
+			for _, rt := range rtPairs(tier) {
+				for _, bare := range []bool{false, true} {
+					for mode := range proxyModes {
+						if bare && mode != 0 && tier != "thorough" {
+							continue // quick: the second wiring on one keep-alive connection only
+						}
+						j := treeJob{Tree: t, Alpha: alpha, Len: 3, Family: "rtreq", Proxy: true, Mode: mode, RT: rt, Bare: bare}
+						j.Cost = pow(j.nsyms(), j.Len) * proxyCost
+						jobs = append(jobs, j)
+					}
+				}
+			}
 		}
 	}
 	// repeat (round 8): the id of an exchange belongs to its symbol, so a symbol played again is the very same exchange
@@ -388,7 +417,17 @@ func seqJobs(tier string) []treeJob {
 		// self-validation aid: the check as it was before round 6
 		var keep []treeJob
 		for _, j := range jobs {
-			if j.Family != "errmod" && j.Family != "proxy" && j.Family != "repeat" {
+			if j.Family != "errmod" && j.Family != "proxy" && j.Family != "repeat" && j.Family != "rtreq" {
+				keep = append(keep, j)
+			}
+		}
+		jobs = keep
+	}
+	if only := os.Getenv("C13_ONLY_TREE"); only != "" {
+		// development aid: only the jobs of one tree (its String())
+		var keep []treeJob
+		for _, j := range jobs {
+			if j.Tree.String() == only {
 				keep = append(keep, j)
 			}
 		}
@@ -1639,7 +1678,7 @@ func main() {
 	}
 	maxN, lenFor := seqBounds(tier)
 	var extTrees int64
-	for _, f := range []string{"variants", "scope", "filterkind", "guard", "long", "failq", "errmod", "proxy", "repeat"} {
+	for _, f := range []string{"variants", "scope", "filterkind", "guard", "long", "failq", "errmod", "proxy", "repeat", "rtreq"} {
 		extTrees += rep.Counter("fam_" + f + "_trees")
 	}
 	rep.Coverage["states"] = rep.Counter("seq_states") + rep.Counter("conc_distinct_histories")
@@ -1655,7 +1694,7 @@ func main() {
 	rep.Coverage["race_pass"] = map[string]interface{}{"scenarios": rr.Scenarios, "iterations": rr.Iterations, "reports": len(rr.Reports), "signatures": raceSigs, "seconds": rr.Seconds, "error": rr.Err}
 	rep.Coverage["exhaustive"] = rep.Incomplete == ""
 	fams := map[string]interface{}{}
-	for _, f := range []string{"variants", "scope", "filterkind", "guard", "long", "failq", "errmod", "proxy", "repeat"} {
+	for _, f := range []string{"variants", "scope", "filterkind", "guard", "long", "failq", "errmod", "proxy", "repeat", "rtreq"} {
 		fams[f] = map[string]int64{"trees": rep.Counter("fam_" + f + "_trees"), "histories": rep.Counter("fam_" + f + "_histories"), "cpu_ms": rep.Counter("cpu_ms_fam_" + f),
 			"trees_with_all_histories_of_length_2": rep.Counter("fam_" + f + "_trees_len2"), "trees_with_all_histories_of_length_3": rep.Counter("fam_" + f + "_trees_len3"), "trees_with_all_histories_of_length_4": rep.Counter("fam_" + f + "_trees_len4"), "trees_with_all_histories_of_length_5": rep.Counter("fam_" + f + "_trees_len5")}
 	}
@@ -1663,8 +1702,9 @@ func main() {
 	rep.Coverage["wrong_method_calls"] = rep.Counter("seq_wrong_method_calls")
 	rep.Coverage["failing_queries"] = rep.Counter("seq_failing_queries")
 	rep.Coverage["expected_modifier_errors"] = rep.Counter("seq_expected_modifier_errors")
-	rep.Coverage["proxy_family"] = map[string]interface{}{"histories_each_one_scheduler_execution": rep.Counter("fam_proxy_histories"), "scheduler_points": rep.Counter("proxy_points"), "connection_modes": proxyModes}
-	rep.Coverage["rule"] = "sequential: every numbered tree with <= n nodes x every sequence of exactly L symbols over the tree's alphabet (all routing x met/unmet decision paths as plain messages; API-marked messages per routing path that reaches a verifier, with all expectations unmet, and also all met when a pingback verifier is present; GET /verify; POST /verify/reset), checked step by step so every shorter history is covered as a prefix, plus one final query; extensions of a failing prefix are skipped. A history is non-trivial when some query in it (explicit or final) has an expected answer different from the fresh tree's. Added families (same enumeration, judged by the concrete reference model of scen/ext.go; counts in added_families): variants = every verifier kind in every listed parameterisation (header: value / presence only / lower-case name; query: value / presence only; url: host / scheme+host+path; pingback: path / scheme+host+path) alone, in a group and in either branch of a filter x the original alphabet plus every shape (wrong value, two values of which the second is wanted, wanted on one side only, empty value, other scheme, other path) x {rest unmet, rest met} x {plain, API}; scope = every listed tree with <= 3 nodes in which some node carries a scope (absent, request, response, both, empty list; every combination the kinds accept) and aggregating groups; filterkind = header / cookie / url-regex / url / method filters with verifiers in the true, else and both branches, the alphabet extended by responses that take the other branch than their request (header and cookie filters decide that from the response); guard = the alphabet extended by POST /verify, GET and PUT /verify/reset (405 + Allow, nothing changes); long = for every plain message m and every N up to the bound: m^N, query, reset, m^(N mod 3), query; failq = trees with one or two verifiers, the alphabet extended by GET /verify from a client that goes away after k bytes of the report (k = 0, 1, 25, half, all but the last byte; a judged complete query first measures the report), all histories of length 4: every later complete query must answer exactly the model's report as one valid JSON document; errmod (round 6) = groups (plain and aggregating, nested, in filter branches) that also hold an ordinary modifier which returns an error for the messages that ask for it (header filter on X-Err around a header.Copy that cannot be carried out; scopes: both sides, request, response), verifiers before and after it, the alphabet extended by every subset of the sides on which the message makes that modifier fail: the verifiers behind a failing modifier are evaluated only in an aggregating group (documented at fifo.Group.SetAggregateErrors), the response modifiers run although the request modifiers returned an error (as in the proxy), a modifier error is accepted exactly where the model expects one; proxy (round 6) = the history is played by a client over a simulated TCP connection through a real martian.Proxy wired like cmd/proxy (API forwarder behind a servemux filter, httpspec stack, configurable modifier, /configure /verify /verify/reset on the API mux; upstream = synchronous round tripper), one scheduler execution per history on the default schedule, alphabet = every plain message, each also with the upstream round trip failing (502 made up by the proxy), a CONNECT whose target cannot be dialled (502 made up by the proxy), a real request to the proxy's own API per routing path (DELETE /configure, refused with 405), GET /verify and POST /verify/reset as real API requests (never counted themselves), x three ways of using connections (one keep-alive connection for everything; queries and resets on a second connection; a new connection per request); repeat (round 8) = the id of an exchange belongs to its symbol instead of its position, so a symbol played again is the very same exchange again (same URL, method, headers, status - a retry) and a verifier that misses its expectation builds the very same error message again: every verifier kind in every parameterisation at the top level, in a group, in a nested group, in the true / else / both branches of a filter, pairs under a group and in the two branches of a filter, filters of the other kinds; alphabet = the variants alphabet (all shapes) plus a twin (same message, other id) of every plain failing message; every history of the largest length <= 4 (thorough 5) under the per-tree cap plus, for every symbol m and every other symbol p, the explicit histories m m q m q r q m m q m / m m m r m m m / m r m m r r m m / m p m q m q r m p m m / p m m r p m p m, each with a final query; the model counts evaluations, not distinct messages. concurrent: every scenario in conc_scenarios_detail, each either over all interleavings of the rewritten lock operations (preemption_bound 0) or over all schedules up to the stated preemption bound."
+	rep.Coverage["proxy_family"] = map[string]interface{}{"histories_each_one_scheduler_execution": rep.Counter("fam_proxy_histories"), "scheduler_points": rep.Counter("proxy_points"), "connection_modes": proxyModes,
+		"rtreq_histories_each_one_scheduler_execution": rep.Counter("fam_rtreq_histories"), "rtreq_res_request_kinds": rtKinds, "rtreq_pairs_plain_api": rtPairs(tier), "rtreq_wirings": proxyWirings}
+	rep.Coverage["rule"] = "sequential: every numbered tree with <= n nodes x every sequence of exactly L symbols over the tree's alphabet (all routing x met/unmet decision paths as plain messages; API-marked messages per routing path that reaches a verifier, with all expectations unmet, and also all met when a pingback verifier is present; GET /verify; POST /verify/reset), checked step by step so every shorter history is covered as a prefix, plus one final query; extensions of a failing prefix are skipped. A history is non-trivial when some query in it (explicit or final) has an expected answer different from the fresh tree's. Added families (same enumeration, judged by the concrete reference model of scen/ext.go; counts in added_families): variants = every verifier kind in every listed parameterisation (header: value / presence only / lower-case name; query: value / presence only; url: host / scheme+host+path; pingback: path / scheme+host+path) alone, in a group and in either branch of a filter x the original alphabet plus every shape (wrong value, two values of which the second is wanted, wanted on one side only, empty value, other scheme, other path) x {rest unmet, rest met} x {plain, API}; scope = every listed tree with <= 3 nodes in which some node carries a scope (absent, request, response, both, empty list; every combination the kinds accept) and aggregating groups; filterkind = header / cookie / url-regex / url / method filters with verifiers in the true, else and both branches, the alphabet extended by responses that take the other branch than their request (header and cookie filters decide that from the response); guard = the alphabet extended by POST /verify, GET and PUT /verify/reset (405 + Allow, nothing changes); long = for every plain message m and every N up to the bound: m^N, query, reset, m^(N mod 3), query; failq = trees with one or two verifiers, the alphabet extended by GET /verify from a client that goes away after k bytes of the report (k = 0, 1, 25, half, all but the last byte; a judged complete query first measures the report), all histories of length 4: every later complete query must answer exactly the model's report as one valid JSON document; errmod (round 6) = groups (plain and aggregating, nested, in filter branches) that also hold an ordinary modifier which returns an error for the messages that ask for it (header filter on X-Err around a header.Copy that cannot be carried out; scopes: both sides, request, response), verifiers before and after it, the alphabet extended by every subset of the sides on which the message makes that modifier fail: the verifiers behind a failing modifier are evaluated only in an aggregating group (documented at fifo.Group.SetAggregateErrors), the response modifiers run although the request modifiers returned an error (as in the proxy), a modifier error is accepted exactly where the model expects one; proxy (round 6) = the history is played by a client over a simulated TCP connection through a real martian.Proxy wired like cmd/proxy (API forwarder behind a servemux filter, httpspec stack, configurable modifier, /configure /verify /verify/reset on the API mux; upstream = synchronous round tripper), one scheduler execution per history on the default schedule, alphabet = every plain message, each also with the upstream round trip failing (502 made up by the proxy), a CONNECT whose target cannot be dialled (502 made up by the proxy), a real request to the proxy's own API per routing path (DELETE /configure, refused with 405), GET /verify and POST /verify/reset as real API requests (never counted themselves), x three ways of using connections (one keep-alive connection for everything; queries and resets on a second connection; a new connection per request); rtreq (round 8b) = the proxy family's trees and connection modes with one more dimension, what the upstream round tripper puts into res.Request: the request it was given, nil, a clone (req.Clone), req.WithContext(another context), chosen for plain exchanges and for exchanges addressed to the proxy's API (POST /configure, GET /verify, POST /verify/reset, the refused DELETE /configure) independently (quick: both alike, or one class as in the proxy family; thorough: all 15 pairs other than (given, given)), x two wirings (the configurable modifier inside the httpspec stack as in cmd/proxy with all three connection modes; directly in the proxy's top group behind the API filter, quick on one keep-alive connection, thorough with all three modes), alphabet = every plain message and the API requests (the exchanges without an upstream response stay with the proxy family), all histories of length 3 + final query; repeat (round 8) = the id of an exchange belongs to its symbol instead of its position, so a symbol played again is the very same exchange again (same URL, method, headers, status - a retry) and a verifier that misses its expectation builds the very same error message again: every verifier kind in every parameterisation at the top level, in a group, in a nested group, in the true / else / both branches of a filter, pairs under a group and in the two branches of a filter, filters of the other kinds; alphabet = the variants alphabet (all shapes) plus a twin (same message, other id) of every plain failing message; every history of the largest length <= 4 (thorough 5) under the per-tree cap plus, for every symbol m and every other symbol p, the explicit histories m m q m q r q m m q m / m m m r m m m / m r m m r r m m / m p m q m q r m p m m / p m m r p m p m, each with a final query; the model counts evaluations, not distinct messages. concurrent: every scenario in conc_scenarios_detail, each either over all interleavings of the rewritten lock operations (preemption_bound 0) or over all schedules up to the stated preemption bound."
 	rep.Coverage["bounds"] = fmt.Sprintf("sequential: all %d trees with <= %d nodes x all histories of length <= %d over the per-tree alphabet; added families: %d trees, all histories of the largest length <= %d that stays under the per-tree cap (see added_families; long: N <= %d; proxy: length 3, thorough 4 for alphabets of <= 10 symbols); concurrent: %d scenarios explored over all interleavings of their lock operations (pairs of threads and small triples: traffic/query/reset) + %d scenarios (2-3 traffic threads x 1-2 exchanges, query thread, optional reset thread) explored over all schedules with at most 2 (quick) / 3 (thorough) preemptions; race pass: %d scenarios, %d free-running runs under -race", len(jobs)-int(extTrees), maxN, lenFor(maxN), extTrees, extLen(tier), map[bool]int{false: 20, true: 132}[tier == "thorough"], rep.Counter("conc_scenarios_all_interleavings"), rep.Counter("conc_scenarios_preemption_bounded"), rr.Scenarios, rr.Iterations)
 	rep.Assumptions = []string{
 		"traffic is applied as the proxy applies it (martian context linked to the request, ModifyRequest then ModifyResponse on the configurable martianhttp.Modifier); no sockets are involved; API requests are marked through the context exactly like api.Forwarder does",
@@ -1674,7 +1714,7 @@ func main() {
 		"sequential histories recycle request objects (hence martian contexts) between histories; every history runs on a freshly parsed configuration (the first history of each tree through the /configure handler, the others through parse.FromJSON + SetRequestModifier/SetResponseModifier)",
 		"schedule exploration interleaves at lock operations only (gosim) and has no partial-order reduction: the 3-4 thread scenarios are complete only up to a preemption bound (every added lock or API-exemption check in martian multiplies the interleavings, the scenario sizes are chosen for the repaired tree); unsynchronised accesses are the business of the auxiliary -race pass, which is a sampling of real schedules, not exhaustive",
 		"errmod family: the failing modifier is a header.Filter on X-Err: 1 around header.Copy from a header that does not exist into Content-Length; fifo.Group stops at the first failing child unless aggregateErrors is set (its documentation), a filter returns what the branch it ran returns; nothing is demanded about the error value itself",
-		"proxy family: the upstream of the proxy is a synchronous http.RoundTripper (it answers what the message says, fails for a failing round trip, serves API requests from the API mux as the Transport + API server of cmd/proxy would) and a dial function that always fails (CONNECT); the client checks the status it receives (200/500 from the origin, 502 made up by the proxy, 405 from /configure) and the number of upstream round trips per exchange, which are the premises of the model's evaluation of the response side; explored on the default schedule only (the client is sequential)",
+		"proxy family: the upstream of the proxy is a synchronous http.RoundTripper (it answers what the message says, fails for a failing round trip, serves API requests from the API mux as the Transport + API server of cmd/proxy would) and a dial function that always fails (CONNECT); the client checks the status it receives (200/500 from the origin, 502 made up by the proxy, 405 from /configure) and the number of upstream round trips per exchange, which are the premises of the model's evaluation of the response side; explored on the default schedule only (the client is sequential); rtreq family: Response.Request is, by net/http's documentation, the request that was sent to obtain the response - which of the listed values a round tripper puts there changes nothing about which exchange the response belongs to, so the reference model is the proxy family's",
 		"pingback.Verifier makes no HTTP call in this version (it watches traffic for a URL); its expectation is modelled as 'one error while no matching non-API request was seen since the last reset'",
 	}
 	rep.Finish()
@@ -1728,6 +1768,8 @@ func replay(path string) {
 				Part     string
 				Family   string
 				Mode     int
+				RT       [2]int
+				Bare     bool
 				Tree     string
 				Config   string
 				Symbols  []int
@@ -1741,7 +1783,7 @@ func replay(path string) {
 	switch r.Part {
 	case "seq":
 		for _, j := range seqJobs("thorough") {
-			if j.Tree.String() == r.Tree && j.Tree.JSON() == r.Config && (r.Family == "" || (j.Family == r.Family && j.Mode == r.Mode)) {
+			if j.Tree.String() == r.Tree && j.Tree.JSON() == r.Config && (r.Family == "" || (j.Family == r.Family && j.Mode == r.Mode && j.RT == r.RT && j.Bare == r.Bare)) {
 				out := &shardOut{Counters: map[string]int64{}, Outcomes: map[string]int{}}
 				j := j
 				fail := runHistory(out, &j, []byte(r.Config), &scen.Pool{}, r.Symbols, true, map[uint64]bool{}, strings.Join(scen.NewModel(j.Tree).Expected(), ","))
